@@ -12,12 +12,101 @@ DESIGN_REF = "6/C01"
 from bindcases import *  # noqa: F401,F403
 from bindcases import _UNIS  # noqa: F401
 
+def _objects(v, out):
+    """all `obj` values inside `v`, with the place (container, key) that holds them"""
+    if isinstance(v, dict):
+        if "obj" in v:
+            for kv in v["fields"]:
+                if isinstance(kv[1], dict) and "obj" in kv[1]:
+                    out.append((kv, 1))
+                _objects(kv[1], out)
+        elif "list" in v:
+            for n, y in enumerate(v["list"]):
+                if isinstance(y, dict) and "obj" in y:
+                    out.append((v["list"], n))
+                _objects(y, out)
+    return out
+
+
+def faulty_value(rng, desc, value):
+    """an instance the serializer must refuse or mishandle: an object of an unrelated class under a
+    model-typed field (SerializerError: not derived), `None` in place of an Attributes map
+    (AttributeError), a scalar in place of a token list (TypeError / one element per character)"""
+    import copy
+
+    v = copy.deepcopy(value)
+    kind = rng.choice(["unrelated", "unrelated", "map-none", "token-scalar"])
+    if kind == "unrelated":
+        places = _objects(v, [])
+        if not places:
+            return None, None
+        cont, key = rng.choice(places)
+        other = [c for c in desc["classes"] if c["name"] != cont[key]["obj"] and c["name"] != "Root"]
+        if not other:
+            return None, None
+        c = rng.choice(other)
+        cont[key] = {"obj": c["name"], "fields": [[f["name"], None] for f in _all_fields(desc, c["name"])]}
+        return kind, v
+    by = {c["name"]: c for c in desc["classes"]}
+    targets = []
+
+    def walk(x):
+        if isinstance(x, dict) and "obj" in x:
+            for kv, f in zip(x["fields"], _all_fields(desc, x["obj"])):
+                md = f.get("metadata", {})
+                if kind == "map-none" and md.get("type") == "Attributes":
+                    targets.append(kv)
+                if kind == "token-scalar" and md.get("tokens") and isinstance(kv[1], dict) and "list" in kv[1]:
+                    targets.append(kv)
+                walk(kv[1])
+        elif isinstance(x, dict) and "list" in x:
+            for y in x["list"]:
+                walk(y)
+
+    _ = by
+    walk(v)
+    if not targets:
+        return None, None
+    kv = rng.choice(targets)
+    kv[1] = None if kind == "map-none" else {"int": 7}
+    return kind, v
+
+
+def _all_fields(desc, name):
+    c = next(c for c in desc["classes"] if c["name"] == name)
+    out = []
+    for b in c.get("bases", []):
+        out += _all_fields(desc, b)
+    return out + c["fields"]
+
+
+def gen_generate_c01(rng, tier):
+    """the shared generator plus instances the serializer refuses (every 4th case)"""
+    n = 0
+    for a in gen_generate(rng, tier):
+        yield a
+        n += 1
+        if n % 4 == 0:
+            kind, v = faulty_value(rng, a["desc"], a["value"])
+            if v is not None:
+                yield {**a, "value": v, "_fault": kind}
+
+
+def classify_generate(a, o):
+    k = a.get("_fault", "generated")
+    if isinstance(o, dict) and "ok" in o:
+        n = len(o["ok"]) if isinstance(o["ok"], list) else 0
+        return f"{k}:ok:{'<=10' if n <= 10 else '<=40' if n <= 40 else '>40'} events"
+    return f"{k}:{o.get('err', 'unsupported') if isinstance(o, dict) else '?'}"
+
+
 CORRS = [
-    Corr("bind.generate", gen_generate, impl_generate, compare=cmp_skip_unsupported,
-         describe="EventGenerator.generate vs model on generated class universes and instances"),
+    Corr("bind.generate", gen_generate_c01, impl_generate, compare=cmp_skip_unsupported, classify=classify_generate,
+         describe="EventGenerator.generate vs model on generated class universes and instances, and on instances the "
+                  "serializer refuses (unrelated class, None for an Attributes map, scalar for a token list)"),
     Corr("bind.parse", gen_parse, impl_parse, compare=cmp_parse, classify=classify_parse,
          describe="NodeParser(EventsHandler) vs model on real documents and single-point faults"),
-    Corr("bind.roundtrip", gen_roundtrip, impl_roundtrip, compare=cmp_parse, classify=classify_rt,
+    Corr("bind.roundtrip", gen_roundtrip, impl_roundtrip_scoped, compare=cmp_roundtrip, classify=classify_rt,
          describe="real serialize({native,lxml}) + parse({native,lxml}) vs model generate+write+parse"),
 ]
 
@@ -83,24 +172,33 @@ def _elem_vars(m):
     return [v for _, vs in m["elements"] for v in vs]
 
 
-def ns_agree_everywhere(ctx):
+def ns_agree_everywhere(ctx, inherit=False):
     """`nsAgree` of Bind/F1.lean re-implemented on the exported JSON: for every model-typed element
     var `v` of every class meta `m`, the classes of the model-typed vars of `v`'s class have the same
     metadata (up to the class qname) under the namespace of `v.qname` and under the namespace of the
     class of `v`."""
     classes = {c["id"]: c for c in ctx["classes"]}
+
+    def classes_for(c):
+        """`classesFor` of Bind/FN.lean: the declared class and (with `inherit`) its proper subclasses"""
+        if not inherit:
+            return [c]
+        return [c] + [k["id"] for k in ctx["classes"] if k["id"] != c and c in k["mro"]]
+
     for ci in ctx["classes"]:
         for _, m in ci["metas"]:
             for v in _elem_vars(m):
                 if not v["clazz"]:
                     continue
-                m2 = _meta_for(classes[v["clazz"]], _target_uri(m["qname"]))
-                for w in _elem_vars(m2):
-                    if not w["clazz"]:
-                        continue
-                    c3 = classes[w["clazz"]]
-                    if _drop_q(_meta_for(c3, _target_uri(v["qname"]))) != _drop_q(_meta_for(c3, _target_uri(m2["qname"]))):
-                        return False
+                for k in classes_for(v["clazz"]):
+                    m2 = _meta_for(classes[k], _target_uri(m["qname"]))
+                    for w in _elem_vars(m2):
+                        if not w["clazz"]:
+                            continue
+                        for k3 in classes_for(w["clazz"]):
+                            c3 = classes[k3]
+                            if _drop_q(_meta_for(c3, _target_uri(v["qname"]))) != _drop_q(_meta_for(c3, _target_uri(m2["qname"]))):
+                                return False
     return True
 
 
@@ -109,7 +207,7 @@ def gen_ctxF1(rng, tier):
         u = B.Universe(desc)
         _UNIS[u.modname] = u
         yield {"ctx": u.export_ctx(), "desc": desc, "_uni": u.modname}
-    for _ in range(n_cases(tier, 60, 1500)):
+    for _ in range(n_cases(tier, 60, 400)):
         u, desc, ctx = new_universe(rng, F1_FEATURES)
         yield {"ctx": ctx, "desc": desc, "_uni": u.modname}
 
@@ -188,7 +286,7 @@ def excluded_region(desc, value):
 
 
 def gen_oracle(rng, tier):
-    for _ in range(n_cases(tier, 150, 3000)):
+    for _ in range(n_cases(tier, 150, 900)):
         u, desc, ctx = new_universe(rng, F1_FEATURES)
         for _ in range(6):
             try:
@@ -220,8 +318,7 @@ def adapt_disagreement(d):
 def covered_oracle(a, msg):
     if a.get("_model_roundtrips"):
         return None  # the model of the unchanged code returns the object: no listed defect applies
-    if not ns_agree_everywhere(a["ctx"]):
-        return "C01-ns-chain"
+    # (namespace chains are no excuse any more: repair c01g-01)
     return excluded_region(a["desc"], a["value"])
 
 
@@ -231,8 +328,40 @@ def gen_valF1(rng, tier):
         u = B.Universe(desc)
         _UNIS[u.modname] = u
         yield {"ctx": u.export_ctx(), "value": value, "clazz": "Root", "desc": desc, "_uni": u.modname}
+    n = 0
     for a in gen_oracle(rng, tier):
         yield {k: a[k] for k in ("ctx", "value", "clazz", "desc", "_uni")}
+        n += 1
+        if n % 3 == 0:
+            # the excluded regions: empty strings, `None` in lists / under required fields, Clark names of datatypes
+            yield {"ctx": a["ctx"], "value": spoil_F1(rng, a["value"]), "clazz": "Root", "desc": a["desc"], "_uni": a["_uni"]}
+
+
+def spoil_F1(rng, value):
+    import copy
+
+    v = copy.deepcopy(value)
+
+    def walk(x):
+        if isinstance(x, dict) and "obj" in x:
+            for kv in x["fields"]:
+                if isinstance(kv[1], dict) and "str" in kv[1] and rng.random() < 0.4:
+                    kv[1]["str"] = rng.choice(["", "", XS_STRING, "{http://www.w3.org/2001/XMLSchema}int", " "])
+                elif kv[1] is not None and rng.random() < 0.1:
+                    kv[1] = None
+                else:
+                    walk(kv[1])
+        elif isinstance(x, dict) and "list" in x:
+            for n, y in enumerate(x["list"]):
+                if rng.random() < 0.15:
+                    x["list"][n] = None
+                elif isinstance(y, dict) and "str" in y and rng.random() < 0.3:
+                    y["str"] = ""
+                else:
+                    walk(y)
+
+    walk(v)
+    return v
 
 
 def impl_valF1(a):
@@ -252,13 +381,13 @@ import c01_wide as W  # noqa: E402
 
 
 def gen_wide(rng, tier):
-    """universes of F1 + nillable + tokens + wrapper + sequence + Attributes maps + init=False fields + subclass instances; instances as generated and with strings
+    """universes of F1 + nillable + tokens + wrapper + sequence + Attributes maps + init=False fields + subclass instances + wildcards; instances as generated and with strings
     pushed into the excluded regions"""
     for desc, value in W.CORPUS:
         u = B.Universe(desc)
         _UNIS[u.modname] = u
         yield {"ctx": u.export_ctx(), "value": value, "clazz": "Root", "desc": desc, "_uni": u.modname, "feat": W.FEAT}
-    for _ in range(n_cases(tier, 120, 3000)):
+    for _ in range(n_cases(tier, 120, 800)):
         u, desc, ctx = new_universe(rng, W.WIDE_FEATURES)
         for _ in range(5):
             try:
@@ -266,37 +395,136 @@ def gen_wide(rng, tier):
             except Exception:  # noqa: BLE001
                 continue
             val = u.to_val(obj)
+            if '"any"' in json.dumps(val) and rng.random() < 0.6:
+                val = W.normal_generic(val)
             if rng.random() < 0.3:
                 val = W.spoil(rng, val)
             yield {"ctx": ctx, "value": val, "clazz": "Root", "desc": desc, "_uni": u.modname, "feat": W.FEAT,
                    "ignore_default_attributes": rng.random() < 0.3}
 
 
+def _ns_agree_wide(ctx):
+    return ns_agree_everywhere(ctx, inherit=bool(W.FEAT.get("inherit")))
+
+
 def impl_valFN(a):
     """`ctxOK` / `valOK` of Bind/FN.lean against the independent description of the excluded regions"""
-    return {"ok": {"ctx": W.ctx_expected(a["ctx"], ns_agree_everywhere), "val": not W.regions(a["desc"], a["value"], a["ctx"])}}
+    return {"ok": {"ctx": W.ctx_expected(a["ctx"], _ns_agree_wide), "val": not W.regions(a["desc"], a["value"], a["ctx"])}}
 
 
 CORRS.append(
-    Corr("c01.valFN", gen_wide, impl_valFN, classify=lambda a, o: json.dumps(o.get("ok"), sort_keys=True),
-         describe="hypotheses ctxOK/valOK of bind_generate_F2..F7 on exported real universes and instances vs the oracle's "
+    Corr("c01.valFN", gen_wide, impl_valFN,
+         classify=lambda a, o: json.dumps(o.get("ok"), sort_keys=True) + (" +generic" if '"any"' in json.dumps(a["value"]) else ""),
+         describe="hypotheses ctxOK/valOK of bind_generate_F2..F8 on exported real universes and instances vs the oracle's "
                   "description of the excluded regions")
 )
 
 
 def covered_wide(a, msg):
-    if not W.ctx_expected(a["ctx"], ns_agree_everywhere):
-        if not ns_agree_everywhere(a["ctx"]):
-            return "C01-ns-chain"
-        return "C01-nillable-token-lists-empty / C01-tokens-in-sequence-typeerror / text var with child elements (excluded universes)"
+    if not W.ctx_expected(a["ctx"], _ns_agree_wide):
+        return "out-of-claim: text var with child elements / token-list or wrapped var inside a sequence group (excluded universes)"
     r = W.regions(a["desc"], a["value"], a["ctx"])
+    if r and all(x == "C01-attributes-value-prefix-rewritten" for x in r) and not _prefix_bound(a):
+        return None  # `prefix:rest` whose prefix is not bound where the attribute stands is left alone: no excuse
     return r[0] if r else None
+
+
+def _prefix_bound(a):
+    """exactly when `ParserUtils.parse_any_attribute` rewrites a value of the shape prefix:rest: the
+    prefix is bound where the attribute stands, in the document a real writer produces (the Lean
+    hypothesis `anyAttrValOK` excludes the shape wholesale: the abstract writer of the model binds every
+    prefix of `prefixMap (collectUris evs)` at the root, the real writers where a name first needs it)"""
+    from lxml import etree
+
+    u = uni_of(a)
+    obj = u.from_val(a["value"])
+    for writer in ("native", "lxml"):
+        try:
+            xml = G.real_serialize(u, obj, writer=writer)
+        except Exception:  # noqa: BLE001
+            return True
+        for el in etree.fromstring(xml.encode()).iter():
+            for v in el.attrib.values():
+                left, sep, right = v.partition(":")
+                if sep and left and right and not right.startswith("//") and (left == "xml" or left in el.nsmap):
+                    return True
+    return False
+
+
+# ------------------------------------------------------------------ shared state: one context for many calls
+def gen_shared(rng, tier):
+    """several instances per universe, of the root class and of the classes nested in it (used once as
+    a root and once nested, under different parent namespaces), to be pushed through ONE XmlContext /
+    XmlSerializer / XmlParser in two orders"""
+    for _ in range(n_cases(tier, 40, 300)):
+        u, desc, ctx = new_universe(rng, W.WIDE_FEATURES)
+        names = [c["name"] for c in desc["classes"]]
+        items = []
+        for _ in range(rng.randint(3, 6)):
+            cname = "Root" if rng.random() < 0.5 else rng.choice(names)
+            try:
+                obj = G.gen_instance(rng, u, cname)
+            except Exception:  # noqa: BLE001
+                continue
+            items.append([cname, u.to_val(obj)])
+        if len(items) >= 2:
+            yield {"desc": desc, "_uni": u.modname, "ctx": ctx, "items": items, "writer": rng.choice(["native", "lxml"]),
+                   "handler": rng.choice(["native", "lxml"]), "value": items[0][1], "clazz": items[0][0]}
+
+
+def oracle_shared(a):
+    """history independence of the pipeline: serializing and parsing through one shared context, in the
+    given order and in the reverse order, gives for every instance what fresh objects give"""
+    if "items" not in a:
+        return None
+    from xsdata.formats.dataclass.context import XmlContext
+    from xsdata.formats.dataclass.parsers import XmlParser
+    from xsdata.formats.dataclass.parsers.handlers import LxmlEventHandler, XmlEventHandler
+    from xsdata.formats.dataclass.serializers import XmlSerializer
+    from xsdata.formats.dataclass.serializers.writers import LxmlEventWriter, XmlEventWriter
+
+    u = uni_of(a)
+    w = XmlEventWriter if a["writer"] == "native" else LxmlEventWriter
+    h = XmlEventHandler if a["handler"] == "native" else LxmlEventHandler
+
+    def run(items, ser, par):
+        out = []
+        for cname, val in items:
+            s_ = ser() if callable(ser) else ser
+            p_ = par() if callable(par) else par
+            try:
+                xml = s_.render(u.from_val(val))
+            except Exception as e:  # noqa: BLE001
+                out.append(("ser:" + type(e).__name__, None))
+                continue
+            try:
+                back = u.to_val(p_.from_string(xml, u.classes[cname]))
+            except Exception as e:  # noqa: BLE001
+                back = "parse:" + type(e).__name__
+            out.append((xml, back))
+        return out
+
+    fresh = run(a["items"], lambda: XmlSerializer(context=XmlContext(models_package=u.modname), writer=w),
+                lambda: XmlParser(context=XmlContext(models_package=u.modname), handler=h))
+    for order in (list(range(len(a["items"]))), list(reversed(range(len(a["items"]))))):
+        ctx = XmlContext(models_package=u.modname)
+        shared = run([a["items"][i] for i in order], XmlSerializer(context=ctx, writer=w), XmlParser(context=ctx, handler=h))
+        for k, i in enumerate(order):
+            if shared[k] != fresh[i]:
+                what = "document" if shared[k][0] != fresh[i][0] else "parsed object"
+                return (f"shared context, order {order}: the {what} of item {i} ({a['items'][i][0]}) differs from the one "
+                        f"fresh objects give: {str(shared[k][0 if what == 'document' else 1])[:160]} vs "
+                        f"{str(fresh[i][0 if what == 'document' else 1])[:160]}")
+    return None
 
 
 ORACLES = [
     Oracle("roundtrip", gen_oracle, oracle_roundtrip, covered=covered_oracle,
            from_ops=("bind.roundtrip", "bind.generate"), adapt=adapt_oracle, adapt_disagreement=adapt_disagreement),
     Oracle("roundtrip-wide", gen_wide, oracle_roundtrip, covered=covered_wide),
+    Oracle("shared-context", gen_shared, oracle_shared),
+    # the shapes of the repaired defects (corpus/C01/roundtrip-repaired-*.json) must round-trip: no excuse
+    Oracle("roundtrip-repaired", lambda rng, tier: corpus_roundtrip("roundtrip-repaired-*.json"), oracle_roundtrip),
 ]
 
 
@@ -316,7 +544,6 @@ def _replay(desc, value, expect):
 FINDINGS = {
     "C01-empty-str-element-default": lambda: _replay(EMPTY_STR_DESC, EMPTY_STR_VALUE, lambda x: '"ed"' in x),
     "C01-attr-datatype-clark-name": lambda: _replay(ATTR_DT_DESC, ATTR_DT_VALUE, lambda x: "xs:string" in x),
-    "C01-ns-chain": lambda: _replay(CHAIN_DESC, CHAIN_VALUE, lambda x: x == "ParserError"),
     **W.FINDINGS,
 }
 TRUSTED = [
@@ -326,13 +553,17 @@ TRUSTED = [
 ]
 ASSUMPTIONS = []
 LEVEL_TEXT = (
-    "Partial. bind_generate_F1 (Props/C01.lean): generate -> abstract writer -> parseRoot is the identity, with no converter "
-    "warning, for every universe with ctxF1 (attributes, primitive- and model-typed elements optional/required/list, a text var, "
-    "class and field namespaces) and every instance with valF1, for both settings of ignore_default_attributes, all parser "
-    "configs and every Unicode Env; the excluded regions have machine-checked witnesses replayed on the real code. Outside "
-    "fragment F1 (wildcards, mixed, anyType, nillable, tokens, wrapper, sequence, compound fields, Attributes, xsi:type/"
-    "inheritance, unions, init=False, QName values) the executable model is compared with the real generator, parser and the "
-    "four writer x handler combinations, but no round-trip theorem is claimed yet."
+    "Partial. generate -> abstract writer -> parseRoot is the identity, with no converter warning, for every parser config, both "
+    "settings of ignore_default_attributes and every Unicode Env: bind_generate_F1 / bind_generate_anyNamespaces (Props/C01.lean: "
+    "attributes, primitive- and model-typed elements optional/required/list, a text var, every combination of class and field "
+    "namespaces) and bind_generate_F2..F8 / bind_generate_FN (Props/C01Wide.lean: + nillable vars and classes, token lists, wrapper "
+    "lists, sequence groups, one Attributes map per class, init=False fields, instances of proper subclasses with xsi:type resolved "
+    "through the prefix map, one list wildcard per class holding generic elements in the parser's normal form), under decidable hypotheses ctxOK (universe) and valOK/valOKI (instance) that the driver evaluates on "
+    "exported real universes; each remaining value-level exclusion that is a defect has a machine-checked witness replayed on the "
+    "real code, the eight defects repaired by repo-patches c01g-01..08 have *_repaired theorems. Outside these fragments (single "
+    "wildcards, tails of generic elements, mixed content, anyType, compound fields, unions, QName-typed and non str/int/bool values, DerivedElements, a text var next to "
+    "child elements) the executable model is compared with the real generator, parser and the four writer x handler combinations, "
+    "but no round-trip theorem is claimed yet."
 )
 LEVEL_NOTE = (
     "Trusted: Lean kernel; metadata exported from the real XmlContext.build is input of the model (builders.py not modelled); "
